@@ -191,8 +191,9 @@ func min(a, b int) int {
 	return b
 }
 
-// reserved: PostgreSQL's fully reserved key words; an unquoted occurrence can
-// not be used as a table or column name.
+// reserved: PostgreSQL's key words of the categories "reserved" and "reserved (can be function or type)"
+// (documentation, appendix "SQL Key Words"); an unquoted occurrence of either can not be used as a table, column or
+// index name (the grammar's ColId admits unreserved and column-name key words only).
 var reserved = map[string]bool{}
 
 func init() {
@@ -200,7 +201,9 @@ func init() {
 		current_catalog current_date current_role current_time current_timestamp current_user default deferrable desc distinct do else end except
 		false fetch for foreign from grant group having in initially intersect into lateral leading limit localtime localtimestamp not null
 		offset on only or order placing primary references returning select session_user some symmetric table then to trailing true union
-		unique user using variadic when where window with`) {
+		unique user using variadic when where window with
+		authorization binary collation concurrently cross current_schema freeze full ilike inner is isnull join left like natural
+		notnull outer overlaps right similar tablesample verbose`) {
 		reserved[w] = true
 	}
 }
